@@ -32,6 +32,8 @@ FAMILIES = [
     [R('[0-9]{12}'), C('-')],
     [R('a{10}'), R('a+b')],
     [R('x{101}'), C('x')],
+    # hex escapes written with upper-case digits
+    [R('[\\x80-\\xFF]+'), R('\\x4F'), C('a')],
 ]
 
 
